@@ -276,10 +276,10 @@ impl<F: Read + Write + Seek> Flusher<F> for FlushBuffer {
             stream.buf_offset_from_start,
             stream.buffer.filled_slice(),
         )?;
-        debug_assert_eq!(
-            minialloc.read().unwrap().dir_entry(stream.stream_id).stream_len,
-            stream.total_len
-        );
+        // The directory has the last word on the length: another handle on
+        // the same stream may have lengthened it in the meantime.
+        stream.total_len =
+            minialloc.read().unwrap().dir_entry(stream.stream_id).stream_len;
         Ok(())
     }
 }
@@ -339,7 +339,11 @@ fn write_data_to_stream<F: Read + Write + Seek>(
         }
         (dir_entry.start_sector, dir_entry.stream_len)
     };
-    debug_assert!(buf_offset_from_start <= old_stream_len);
+    if buf_offset_from_start > old_stream_len {
+        // Something else (another handle on the same stream, or replacing the
+        // stream) has truncated it to before this handle's buffer window.
+        return Err(io::Error::other("Stream was truncated"));
+    }
     let new_stream_len =
         old_stream_len.max(buf_offset_from_start + buf.len() as u64);
     let new_start_sector = if old_start_sector == consts::END_OF_CHAIN {
